@@ -43,6 +43,7 @@ func runC19(c *Ctx) {
 	ruleS4(c, "S4")
 	ruleE8(c)
 	ruleE9(c, "E9")
+	ruleG11(c, "E10")
 }
 
 // ruleE8: the message on stderr is written by cobra when RunE returns an
@@ -120,6 +121,9 @@ func ruleE1(c *Ctx, rule string) {
 				}
 			}
 			r.Finding(rule, s.Key, c.P.pos(s.Instr.Pos()), s.Desc+": the failure is reported as success")
+		}
+		for _, s := range errorTestedAfterValueSites(c, fn) {
+			r.Finding(rule, s.Key, c.P.pos(s.Instr.Pos()), s.Desc+": a failure that comes with a nil value is reported as success")
 		}
 		for _, s := range recoverLostSites(c, fn) {
 			// not armed: no input reaching this recover could be exhibited (DESIGN §3 C11/P6)
